@@ -327,6 +327,12 @@ func runTkHistory(r *h.Report, d *h.Driver, ev *tkEvents, base int, facts string
 		}
 		return d.Ask(line)
 	}
+	agreed := true
+	mismatch := func(ops []string, impl, mdl, note string) {
+		// the tie is broken: the rest of the history runs without the model, the monitor keeps judging
+		r.Mismatch(ops, impl, mdl, note)
+		d, agreed = nil, false
+	}
 	if d != nil {
 		if a := d.Ask("reset"); a != "reset" {
 			panic("drv_tdk: " + a)
@@ -392,8 +398,7 @@ func runTkHistory(r *h.Report, d *h.Driver, ev *tkEvents, base int, facts string
 				}
 			}
 			if (err == nil) != expect {
-				r.Mismatch(done, fmt.Sprintf("granted=%v (%v)", err == nil, err), fmt.Sprintf("granted=%v", expect), "outcome of a request")
-				return
+				mismatch(done, fmt.Sprintf("granted=%v (%v)", err == nil, err), fmt.Sprintf("granted=%v", expect), "outcome of a request")
 			}
 			if err != nil {
 				// refused (duplicate, second binding on the server feature, entity gone): the model does not see the request
@@ -560,20 +565,22 @@ func runTkHistory(r *h.Report, d *h.Driver, ev *tkEvents, base int, facts string
 			continue
 		}
 		if impl != mdl {
-			r.Mismatch(done, impl, mdl, "answer of "+op)
-			return
+			mismatch(done, impl, mdl, "answer of "+op)
+			continue
 		}
 		s1, s2, s3, s4, s5 := w.observe()
 		if is, ms := tkState(s1, s2, s3, s4, s5), d.Ask("state"); is != ms {
-			r.Mismatch(done, is, ms, "state after "+op)
-			return
+			mismatch(done, is, ms, "state after "+op)
+			continue
 		}
 		if ir, mr := strings.Join(w.resolve(), " "), strings.Join(tkModelResolve(d), " "); ir != mr {
-			r.Mismatch(done, ir, mr, "resolution after "+op)
-			return
+			mismatch(done, ir, mr, "resolution after "+op)
+			continue
 		}
 	}
-	r.Traces++
+	if agreed {
+		r.Traces++
+	}
 }
 
 // regexpEntityKnown: does connection k currently know entity ent (real device object)?
@@ -665,8 +672,8 @@ func genTkHistory(rng regRng, n int, shared bool) []string {
 			}
 			ops = append(ops, fmt.Sprintf("drop %d", k))
 			delete(alive, k)
-			for se := range bound {
-				if rng.Intn(2) == 0 {
+			for i := 1; i <= 4; i++ {
+				if se := strconv.Itoa(i); bound[se] && rng.Intn(2) == 0 {
 					delete(bound, se)
 				}
 			}
@@ -737,12 +744,19 @@ func TestTeardownKeys(t *testing.T) {
 	}
 	rng := h.Rng(1061)
 	n := h.Scale(700, 7000)
-	for i := 0; i < n && r.MismatchN == 0; i++ {
+	search := 0 // histories run after the first mismatch, in search of an input on which the SPEC itself fails
+	for i := 0; i < n && search < 60; i++ {
+		if r.MismatchN > 0 {
+			search++
+		}
 		run(genTkHistory(rng, 10+rng.Intn(22), i%4 == 3))
 	}
-	r.Floor("granted share of subscription / binding requests", st.grantOk, st.grants, 0.45)
-	r.Floor("teardowns that removed entries while entries of others stayed (distinct addresses)", st.dropsNontrivial, st.drops, 0.10)
-	r.Floor("ops in worlds with a shared device address", st.sharedOps, st.ops, 0.03)
+	if regClean(r, map[string]bool{}) {
+		// floors are generator quality on a run that agreed; a change that breaks every history is a violation, not starvation
+		r.Floor("granted share of subscription / binding requests", st.grantOk, st.grants, 0.45)
+		r.Floor("teardowns that removed entries while entries of others stayed (distinct addresses)", st.dropsNontrivial, st.drops, 0.10)
+		r.Floor("ops in worlds with a shared device address", st.sharedOps, st.ops, 0.03)
+	}
 	rerun := func(q *h.Report, ops []string) { runTkHistory(q, d, ev, base, facts, ops, &tkStats{}) }
 	regShrinkReport(r, rerun, map[string]bool{}, false)
 }
